@@ -13,7 +13,7 @@ claims = {
  'C13': ('model_checking', "Get/GetByHeight against <=2 (quick) / 3 (thorough) trusted peers, each answering with an error, a hang, or 0..2 responses with a defect from the catalogue (symbolic unknown status codes); request timeouts fire at quiescence.", "Network cut at sendMessage; arrival order = peer order (symmetry argument); response lists <= 2."),
  'C14': ('model_checking', "C08's scenarios with 1-2 handlers that read their header back; one handler call fails or panics at every position; exactly-once, readable-at-call, kept-on-failure and retry clauses checked.", "Sequential delete path; at most one failing handler call; K<=3 quick."),
  'C15': ('model_checking', "incomingNetworkHead/verify/verifyBifurcating for every distance d<=D, symbolic subjective height, arbitrary verdict function over pairs (soundness, refusal, termination bound) and trust-range verdicts (completeness); getter failure at any request.", "D<=5/12 quick, 9/40 thorough; store = specification store; pending empty at entry."),
- 'C16': ('model_checking', "estimateTailHeight and findTailHeight executed for every Parameters value accepted by the real Validate, symbolic heights/times (division kernels decided by cvc5 --solve-bv-as-int); chains of K+1 headers for the retention clause and for wrap-around on slow/halted chains. One KNOWN-FINDING (retention, estimate-from-head).", "Scan loop <= SCANS iterations (find-sym), chains <= K+1 (find-chain*); moveTail/subjectiveTail composition is not in this check."),
+ 'C16': ('model_checking', "estimateTailHeight and findTailHeight executed for every Parameters value accepted by the real Validate, symbolic heights/times (division kernels decided by cvc5 --solve-bv-as-int); chains of K+1 headers for the retention clause and for wrap-around on slow/halted chains. One KNOWN-FINDING (retention, estimate-from-head).", "Scan loop <= SCANS iterations (find-sym), chains <= K+1 (find-chain*)."),
 }
 pending = {
  'C03': "check not built yet in this session (Syncer gossip/sync-loop harness planned: DESIGN 6 C03)",
@@ -50,6 +50,18 @@ _upd('C14', "Parallel unit: the same on deleteParallel (threshold lowered to 2) 
 _upd('C16', "Move unit: the whole subjectiveTail (renewTail + moveTail incl. doSync downwards) for every contiguous stored run of a K-chain and every configuration of the tail (height, hash, window). Second KNOWN-FINDING: moving the tail down onto the header below a single-header store fails with errNonAdjacent.", "")
 _upd('C18', "Wire-e2e unit: real Exchange.Head/Get/GetByHeight/GetRangeByHeight + sendMessage + serde + protobuf against the real requestHandler through an in-memory pipe: headers arrive unchanged.", "")
 _upd('C19', "Single-flight unit: 2 (3) concurrent Head() callers under gate scheduling: never more than one head request in flight, shared result.", "")
+# ---- refinements after seeding rounds 3 and 4
+_upd('C01', "Chain ids are bounded symbolic strings (every byte string up to 52 bytes): equality, len and constant slicing are decided by the solver.", "Chain ids longer than 52 bytes are outside.")
+_upd('C03', "Unit forged-head-callers: overlapping Head() callers against a Head getter that may once offer a forged, softly failing head (shared single-flight result included).", "")
+_upd('C07', "Injected getter errors may wrap context.Canceled / DeadlineExceeded while the Syncer context is alive. A defect found by the thorough tier (overtaken network head applied under a running sync) was repaired (KNOWN_FINDINGS: b6967e1).", "")
+_upd('C08', "Tail-side deletions may race with the chain growing: an append (and flush) in the middle of the deletion, or an append still queued for the writer when DeleteRange is called; a fifth configuration (plain datastore, write batch 2).", "")
+_upd('C12', "A configuration that flushes per header over snapshot read transactions of the context-aware datastore.", "")
+_upd('C13', "Unit get-more-peers: 3 (5) trusted peers with a short answer catalogue and a gated arrival order.", "")
+_upd('C14', "After a deletion without failure the chain continues and a later deletion must announce its header to every handler again.", "")
+_upd('C16', "The move unit also recomputes the tail for a network head above the local head and with a failing fetch of the new tail. Third KNOWN-FINDING: a new tail above local head + 1 wedges Head()/Start (node offline for longer than its pruning window).", "")
+_upd('C17', "Units reader-in-delete-window (multi-header tail deletion, reader touching the range) and reader-vs-flush (scheduling points before and after each datastore read).", "")
+_upd('C18', "Slow-peer score catalogue with a bounded-progress oracle; unit honest-split-interleaved with an overlay-only scheduling point inside session.doRequest.", "")
+_upd('C19', "Units monotone-during-sync (Head() observed at every scheduling point of the real sync loop) and monotone-overlapping (overlapping callers, lagging trusted peers, linearisation oracle).", "")
 checks=[]
 for pid,(cat,text,note) in sorted(claims.items()):
     checks.append({
